@@ -636,7 +636,7 @@ class SimNinja:
             cmd = mf.binding(e, "command")
             rec["cmd"] = cmd
             if f is not None:
-                rec["fault"] = {k: f[k] for k in ("kind", "n", "code", "mode", "signal") if k in f}
+                rec["fault"] = {k: f[k] for k in ("kind", "n", "code", "mode", "signal", "k") if k in f}
             if f is not None and f["kind"] == "fail_before":
                 rec.update(status=["exit", 1], fired=True, reads=[], writes=[], wdigests={})
                 return rec
@@ -650,6 +650,8 @@ class SimNinja:
             lf = None
             if f is not None and f["kind"] in ("torn_efbig", "torn_kill"):
                 lf = {"kind": f["kind"], "n": f["n"]}
+            elif f is not None and f["kind"] == "kill_at_op":
+                lf = {"kind": "kill_at_op", "k": f.get("k", 0), "root": w.root}
             env, marker = self.env, None
             if f is not None and f["kind"] == "inner_fail" and e.rule == "pngquant":
                 # the tool the step runs fails, not the step itself: a failing `pngquant` first on PATH
